@@ -304,6 +304,67 @@ func (p *pool) check(m map[string]string) string {
 	return classify(err) + p.obs()
 }
 
+// ccheck: K distinct, equally long, never-seen transactions with one and the same verdict are
+// submitted by K goroutines released together. Every linearisation admits the same NUMBER of them
+// (the model answers with the sequential run); which ones is schedule dependent, so only counts are
+// reported and the generator flushes the pool afterwards.
+func (p *pool) ccheck(m map[string]string) string {
+	v, ok := parseVerdict(m)
+	txl := splitList(m["txs"])
+	if !ok || len(txl) == 0 || len(txl) > 64 {
+		return "bad-op"
+	}
+	var txs []types.Tx
+	for _, t := range txl {
+		if !validHex(t) {
+			return "bad-op"
+		}
+		txs = append(txs, types.Tx(unhx(t)))
+	}
+	p.app.mu.Lock()
+	p.app.first = v
+	p.app.mu.Unlock()
+	before := p.mp.Size()
+	start := make(chan struct{})
+	var wg sync.WaitGroup
+	var panicked int32
+	for i := range txs {
+		wg.Add(1)
+		go func(i int) {
+			defer wg.Done()
+			defer func() {
+				if r := recover(); r != nil {
+					atomic.StoreInt32(&panicked, 1)
+				}
+			}()
+			<-start
+			_ = p.mp.CheckTx(txs[i], nil, mempool.TxInfo{SenderID: uint16(i)})
+		}(i)
+	}
+	close(start)
+	wg.Wait()
+	all := p.mp.ReapMaxTxs(-1)
+	seen := map[string]bool{}
+	dup := 0
+	var sum int64
+	for _, t := range all {
+		if seen[string(t)] {
+			dup++
+		}
+		seen[string(t)] = true
+		sum += int64(len(t))
+	}
+	n, b := p.mp.Size(), p.mp.SizeBytes()
+	s := fmt.Sprintf("admitted=%d | n=%d b=%d dup=%d reap=%d", n-before, n, b, dup, len(all))
+	if b != sum {
+		s += fmt.Sprintf(" contents=%d", sum)
+	}
+	if panicked != 0 {
+		s += " panic"
+	}
+	return s
+}
+
 func (p *pool) update(m map[string]string) string {
 	h, ok := atoi(m["h"])
 	if !ok {
@@ -442,6 +503,8 @@ func execCase(c core.Case) []string {
 			out = append(out, countRes(p.check(m)))
 		case "update":
 			out = append(out, countRes(p.update(m)))
+		case "ccheck":
+			out = append(out, p.ccheck(m))
 		case "flush":
 			if len(f) != 1 {
 				out = append(out, "bad-op")
@@ -730,6 +793,27 @@ func oracle(c core.Case, out []string) []core.Finding {
 			m := kv(op)
 			add("v"+m["ver"]+".concurrent."+strings.TrimPrefix(out[i], "stress-fail "),
 				"concurrent submitters/committer/reaper on one pool ("+op+"): "+out[i])
+			continue
+		}
+		if f[0] == "ccheck" && strings.HasPrefix(out[i], "admitted=") && cfg != nil {
+			var adm, n, b, dup, reap int64
+			fmt.Sscanf(out[i], "admitted=%d | n=%d b=%d dup=%d reap=%d", &adm, &n, &b, &dup, &reap)
+			if size >= 0 && maxb >= 0 && (n > size || b > maxb) {
+				add(ver+".concurrent.exceeds-configured-limits", fmt.Sprintf("after %d concurrent CheckTx calls Size()=%d SizeBytes()=%d exceed size=%d max_txs_bytes=%d", len(splitList(kv(op)["txs"])), n, b, size, maxb))
+			}
+			if dup != 0 {
+				add(ver+".concurrent.duplicate-tx", "after concurrent CheckTx calls a transaction is in the pool twice")
+			}
+			if reap != n {
+				add(ver+".concurrent.size-differs-from-reap-all", fmt.Sprintf("after concurrent CheckTx calls Size()=%d but %d txs are reapable", n, reap))
+			}
+			if strings.Contains(out[i], "contents=") {
+				add(ver+".concurrent.sizebytes-differs-from-contents", "after concurrent CheckTx calls SizeBytes() differs from the pool contents: "+out[i])
+			}
+			if strings.Contains(out[i], "panic") {
+				add(ver+".concurrent.panic", "CheckTx panicked under concurrent callers")
+			}
+			prev = nil
 			continue
 		}
 		if strings.HasPrefix(out[i], "PANIC") {
@@ -1198,6 +1282,34 @@ func genEviction(r *rand.Rand, emit func(core.Case), n int) {
 	}
 }
 
+// genConcurrent: a pool filled up to `free` free slots (by count or by bytes), then K > free
+// goroutines released together, each submitting its own fresh 2-byte tx with the same accepting
+// verdict; then flush. v1: the pool holds lower- and higher-priority entries, so evictions happen too.
+func genConcurrent(r *rand.Rand, emit func(core.Case), n, ver int) {
+	for c := 0; c < n; c++ {
+		size := 1 + r.Intn(5)
+		pre := r.Intn(size + 1) // entries already there
+		maxb := int64(1000)
+		if r.Intn(3) == 0 { // the byte limit is the tight one
+			maxb = int64(2*pre + 2*(1+r.Intn(2)) + r.Intn(2))
+			size = pre + 4
+		}
+		ops := []string{fmt.Sprintf("cfg ver=%d size=%d maxbytes=%d maxtx=1000 cache=%d keep=0 recheck=0 ttl=0 ttld=0 h=1", ver, size, maxb, r.Intn(40))}
+		for round := 0; round < 3; round++ {
+			for i := 0; i < pre; i++ {
+				ops = append(ops, fmt.Sprintf("check tx=d%x%02x peer=0 code=0 gas=1 prio=%d sender=-", round, i, r.Intn(4)))
+			}
+			k := 2 + r.Intn(14)
+			var txs []string
+			for i := 0; i < k; i++ {
+				txs = append(txs, fmt.Sprintf("e%x%02x", round, i))
+			}
+			ops = append(ops, fmt.Sprintf("ccheck txs=%s code=0 gas=1 prio=%d sender=-", strings.Join(txs, ","), r.Intn(4)), "flush")
+		}
+		emit(core.Case{Kind: fmt.Sprintf("concurrent-v%d", ver), Ops: ops})
+	}
+}
+
 // genHostile: malformed / out-of-contract op lines (negative limits, unknown ops, bad hex, ops before cfg).
 func genHostile(r *rand.Rand, emit func(core.Case), n int) {
 	bad := []string{
@@ -1246,6 +1358,8 @@ func main() {
 			}
 			genEviction(r, emit, n)
 			genHostile(r, emit, n/2)
+			genConcurrent(r, emit, n/8, 0)
+			genConcurrent(r, emit, n/8, 1)
 			if tier == "thorough" {
 				for i := 0; i < 200; i++ {
 					size := 2 + r.Intn(6)
